@@ -1235,6 +1235,7 @@ func (w *WalletManager) GetBindingHistory(excludeWithdrawn bool) ([]*txmgr.Bindi
 
 func (w *WalletManager) Start() error {
 	w.server.Blockchain().RegisterListener(w.ntfnsHandler)
+	simYield("start.registered")
 	err := w.ntfnsHandler.Start()
 	if err != nil {
 		logging.CPrint(logging.ERROR, "failed to start ntfnsHandler", logging.LogFormat{
